@@ -92,6 +92,21 @@ CLAIMED = {
         note=("Trusted: Coq kernel, extraction + OCaml driver, harness, hook tcb::verif_len; correspondence is testing. "
               "'Distinct flows' are counted as distinct cookies (they differ from 4-tuples only on a SipHash collision, C08)."),
         technique="Coq invariant by induction over histories + table-size correspondence through a hook"),
+    "C19": dict(
+        text=("Coq theorems over the model's application layer: for every datagram payload, and for every first TCP data "
+              "segment, the reply is render(core, context) where the core (silent / constant bytes / STUN transaction id + "
+              "shift flag / parsed RPC call / parsed DNS query) is computed by functions with NO address, port or IP-version "
+              "argument, and render lets the context enter only through STUN MAPPED-ADDRESS (+ derived lengths), successful "
+              "portmapper GETPORT/GETADDR/DUMP results (+ record-mark length) and DNS answer RDLENGTH/RDATA; whether a "
+              "payload is answered never depends on the context; HTTP/SSH/Gh0st/SMB replies are identical bytes in every "
+              "context; the reply port is the contacted port (+1 only for STUN change-port). Tied to /repo "
+              "metamorphically: the implementation answers the same payload over dozens of port pairs x IPv4/IPv6 x "
+              "address pairs and the independently masked replies must coincide; each reply is also compared with the model."),
+        design="DESIGN.md section 5, C19",
+        note=("Trusted: Coq kernel, extraction + OCaml driver, harness incl. the Python masks; correspondence is testing. "
+              "Wall-clock fields (HTTP Date, SMB FILETIME) are inputs of the model (clock record) and masked in comparisons. "
+              "Later TCP segments of a flow are covered through the per-flow parser state by C08/C11, not here."),
+        technique="Coq factorisation theorem (context-free core + explicit rendering) + metamorphic model/implementation correspondence"),
 }
 
 ALL = ["C%02d" % i for i in range(1, 21)]
